@@ -438,6 +438,12 @@ func init() {
 		return "ok " + strconv.Itoa(len(cl.members)-1)
 	})
 	register("c.sync", func(a []string) string { cl.sync(); return "ok" })
+	// c.stopconv <i>: a member leaves gracefully and the membership converges (the coordinator's routing update triggered by
+	// the leave event has been computed and pushed); no balancer pass
+	register("c.stopconv", func(a []string) string {
+		handlers["c.stop"](a) // (a member whose listener was closed before - c.unreach - may report that while shutting down)
+		return handlers["c.converge"](nil)
+	})
 	// c.addconv: a member joins and the membership converges (the coordinator's own routing update, triggered by the join
 	// event, has been computed and pushed); no balancer pass
 	register("c.addconv", func(a []string) string {
@@ -1715,6 +1721,23 @@ func init() {
 	})
 	// rawcmd <i> <arg hex>... : any RESP command; reply class
 	register("c.rawseq", rawSeq)
+	register("c.rawhold", rawHold)
+	register("c.rawdrop", rawDrop)
+	// c.rawint <m> <hex tok>...: a command whose reply is an integer
+	register("c.rawint", func(a []string) string {
+		m := cl.members[atoi(a[0])]
+		var args []interface{}
+		for _, x := range a[1:] {
+			args = append(args, unhx(x))
+		}
+		ctx, cancel := opCtx()
+		defer cancel()
+		n, err := cl.rawc(m).Do(ctx, args...).Int64()
+		if err != nil {
+			return "E:" + errClass(err)
+		}
+		return strconv.FormatInt(n, 10)
+	})
 	register("c.rawcmd", func(a []string) string {
 		m := cl.members[atoi(a[0])]
 		var args []interface{}
@@ -1786,6 +1809,60 @@ func rawSeq(a []string) string {
 	defer cancel()
 	if perr := cl.rawc(m).Ping(ctx).Err(); perr != nil {
 		return "member-unresponsive:" + errClass(perr)
+	}
+	return "ok"
+}
+
+// raw connections that stay open between operations (a subscriber that talks RESP by hand: command names in any case)
+var heldConns = map[string]net.Conn{}
+
+func rawHold(a []string) string {
+	name := a[0]
+	conn := heldConns[name]
+	if conn == nil {
+		m := cl.members[atoi(a[1])]
+		c, err := net.DialTimeout("tcp", m.addr, 2*time.Second)
+		if err != nil {
+			return "neterr"
+		}
+		heldConns[name] = c
+		conn = c
+	}
+	var cmdv [][]byte
+	flush := func() {
+		if len(cmdv) == 0 {
+			return
+		}
+		var b []byte
+		b = append(b, fmt.Sprintf("*%d\r\n", len(cmdv))...)
+		for _, t := range cmdv {
+			b = append(b, fmt.Sprintf("$%d\r\n", len(t))...)
+			b = append(b, t...)
+			b = append(b, '\r', '\n')
+		}
+		cmdv = nil
+		conn.SetWriteDeadline(time.Now().Add(time.Second))
+		conn.Write(b)
+		buf := make([]byte, 4096)
+		conn.SetReadDeadline(time.Now().Add(80 * time.Millisecond))
+		conn.Read(buf)
+	}
+	for _, x := range a[2:] {
+		if x == "|" {
+			flush()
+			continue
+		}
+		cmdv = append(cmdv, unhx(x))
+	}
+	flush()
+	return "ok"
+}
+
+func rawDrop(a []string) string {
+	if c := heldConns[a[0]]; c != nil {
+		c.Close()
+		delete(heldConns, a[0])
+		time.Sleep(50 * time.Millisecond)
 	}
 	return "ok"
 }
